@@ -92,6 +92,10 @@ func addStubIntrinsics(t map[string]Intrinsic) {
 	t["(*encoding/json.Encoder).Encode"] = func(m *Machine, fr *Frame, fn *ssa.Function, a []Value) Value {
 		m.noteStub("encoding/json.Encoder.Encode (native on concrete value, one Write)")
 		w, _ := m.side("jsonenc")[a[0].(*Value)].(IfaceV)
+		// the real Encoder remembers the first error of its writer and returns it from every later Encode
+		if sticky, ok := m.side("jsonencErr")[a[0].(*Value)].(IfaceV); ok && sticky.T != nil {
+			return sticky
+		}
 		v := a[1].(IfaceV)
 		var native interface{}
 		switch {
@@ -128,6 +132,7 @@ func addStubIntrinsics(t map[string]Intrinsic) {
 			m.unsupported("json encoder target without Write")
 		}
 		if e := r.(TupleV)[1].(IfaceV); e.T != nil {
+			m.side("jsonencErr")[a[0].(*Value)] = e
 			return e
 		}
 		return IfaceV{}
@@ -172,6 +177,7 @@ func addStubIntrinsics(t map[string]Intrinsic) {
 	}
 	t["encoding/json.Unmarshal"] = func(m *Machine, fr *Frame, fn *ssa.Function, a []Value) Value {
 		m.noteStub("encoding/json.Unmarshal (native on concrete bytes)")
+		m.checkPooledBytes(fr, "json.Unmarshal", a[0])
 		data, ok := m.concreteBytes(a[0])
 		if !ok {
 			m.unsupported("json.Unmarshal of symbolic bytes")
